@@ -154,6 +154,8 @@ def gen_sum(chk):
     # quick: 5 symbols without 0xFF (just another ordinary byte); thorough: all 8
     for syms in itertools.product(range(7 if quick else 8), repeat=5):
         k += 1
+        if quick and k % 2:
+            continue      # quick tier: every second 5-symbol stream (4-symbol streams are complete)
         jobs.append((list(syms), 1000 if k % 3 else 2, 1 if k % 5 == 0 else 0, bool(k % 2)))
     if not quick:
         for syms in itertools.product(range(8), repeat=6):
@@ -517,7 +519,7 @@ def _run(chk, wd, proved):
     cov['rule'] = ('one evaluation = one run of the real POutputDispatcher (reads then final flush) compared with the model '
                    'after every read; exhaustive: every fragmentation at symbol boundaries of every stream of n symbols over '
                    '{BEGIN, END, BEGIN-prefix, BEGIN-suffix, common prefix, END-suffix, "a", 0xFF} for n <= %d '
-                   '(n<=3 exact traces, n>=4 by checksum over all fragmentations; quick tier: n=5 without 0xFF), every byte-level single cut and double cut of '
+                   '(n<=3 exact traces, n>=4 by checksum over all fragmentations; quick tier: every second 5-symbol stream, without 0xFF), every byte-level single cut and double cut of '
                    'canonical streams, capture_maxbytes in %r and -1; the real BoundIO alone on every sequence of <= 4 writes with '
                    'sizes {0,1,mb-1,mb,mb+1,2mb} for mb in 1..6 (+ larger bounds, random); sections of length cap-1, cap, cap+1, 2cap '
                    'for cap in {8,30,40,100} behind a flushing prefix with every 2-read split and 3-read splits at multiples of 7; '
